@@ -147,9 +147,8 @@ def isReload (ts : List String) : Bool := match ts with
   | [] => false
 
 /-- `oracle` step: reads the implementation's trace -/
-def stepOracle (s : St) (ts : List String) (line : String) : St × Option String :=
+def stepOracle0 (s : St) (ts : List String) (line : String) : St × Option String :=
   let res := resPart line
-  if res.any (·.startsWith "PANIC") then (s, some "bad panic") else
   match ts with
   | ["phase", "B"] => ({ s with phaseB := true, posB := 0 }, none)
   | _ =>
@@ -184,6 +183,11 @@ def stepOracle (s : St) (ts : List String) (line : String) : St × Option String
         | [op, x, arg] => doLoad true s ((op.splitOn ".").headD "") re x.toNat? arg
         | _ => (s, some "bad-op"))
       if re then (s2, r2) else ({ s2 with recA := s2.recA.push (opPart line, res, ({} : Flags)) }, r2)
+
+def stepOracle (s : St) (ts : List String) (line : String) : St × Option String :=
+  let (s', r) := stepOracle0 s ts line
+  if r == some "bad-op" then (s', r)
+  else if (resPart line).any (·.startsWith "PANIC") then (s', some "bad panic") else (s', r)
 
 def run (mode : String) : IO Unit :=
   if mode == "oracle" then loop ({} : St) stepOracle else loop ({} : St) stepModel
